@@ -54,6 +54,8 @@ class NativeEval(object):
         if any(isinstance(x, float) and math.isinf(x) for x in (a, b)):
             return exact(float(a), float(b))
         a, b = fractions.Fraction(a), fractions.Fraction(b)
+        if a == b:
+            return exact(a, b)      # exactly equal values decide every comparison
         if abs(a - b) <= self.tol * max(1, abs(a), abs(b)):
             return None
         return exact(a, b)
@@ -72,6 +74,8 @@ class NativeEval(object):
             return self.env[n.id]
         if n.id in ("True", "False", "None"):
             return {"True": True, "False": False, "None": None}[n.id]
+        if n.id == "inf":
+            return math.inf
         mod = self.natives.get("$module")
         if mod is not None and hasattr(mod, n.id):
             return _num(getattr(mod, n.id))
